@@ -42,11 +42,15 @@ class Check:
         nlinks = rng.choice([1, 1, 2, 2, 3, 4])
         li = 0
         for _ in range(nlinks):
-            d = rng.choice(dirs_in)
+            # links mostly sit below the root; some sit in the sibling tree, where they matter once a link leads there
+            outside = rng.random() < 0.25 and li > 0
+            d = rng.choice(dirs_sib if outside else dirs_in)
             name = "ln%d" % li
             li += 1
             lp = d + "/" + name
-            kind = rng.choice(["dir_in", "dir_in", "dir_sib", "dir_sib", "file", "ancestor", "dot", "above", "mutual", "chain", "dangling", "selfloop"])
+            kind = rng.choice(["dir_in", "dir_in", "dir_sib", "dir_sib", "file", "ancestor", "dot", "parent", "parent", "above", "mutual", "chain", "dangling", "selfloop"])
+            if outside and kind in ("ancestor", "mutual", "file"):
+                kind = "parent"
             absolute = rng.random() < 0.4
 
             def spell(t):
@@ -65,6 +69,8 @@ class Check:
                 nodes.append({"path": lp, "type": "symlink", "target": spell(anc)})
             elif kind == "dot":
                 nodes.append({"path": lp, "type": "symlink", "target": "."})
+            elif kind == "parent":
+                nodes.append({"path": lp, "type": "symlink", "target": rng.choice(["..", "..", "../..", "./.."])})
             elif kind == "above":
                 nodes.append({"path": lp, "type": "symlink", "target": spell(OUTER)})
             elif kind == "mutual" and len(dirs_in) >= 2:
